@@ -32,6 +32,9 @@ abbrev PyFlags := List (String × Bool)
 def PyFlags.get (σ : PyFlags) (x : String) : Option Bool := σ.lookup x
 def PyFlags.set (σ : PyFlags) (x : String) (v : Bool) : PyFlags := (x, v) :: σ
 
+/-- The local variables of one generator frame: those that hold terms, and the flags. -/
+abbrev PyLoc := Env × PyFlags
+
 /-- How a statement (list) ends. -/
 inductive Ctl where
   | norm              -- fell through
@@ -40,10 +43,10 @@ inductive Ctl where
   | sig (s : Sig)     -- the frame is being left: the consumer abandoned it at a `yield`, or a callee raised
 deriving Repr, Inhabited, DecidableEq
 
-def World.push (σ : PyFlags) (w : World) : World := { w with py := σ :: w.py }
-def World.pop (w : World) : PyFlags × World := (w.py.headD [], { w with py := w.py.tail })
+def World.push (σ : PyLoc) (w : World) : World := { w with py := σ :: w.py }
+def World.pop (w : World) : PyLoc × World := (w.py.headD ([], []), { w with py := w.py.tail })
 
-@[simp] theorem World.pop_push (σ : PyFlags) (w : World) : (w.push σ).pop = (σ, w) := rfl
+@[simp] theorem World.pop_push (σ : PyLoc) (w : World) : (w.push σ).pop = (σ, w) := rfl
 
 /-- The loop body executed `break`: the private reason with which a `for` loop abandons the
     generator it iterates over. -/
@@ -86,25 +89,25 @@ end
 
 def unsupported : Sig := .exn "UnsupportedPython"
 
-abbrev PyR := PyFlags × World × Ctl
+abbrev PyR := PyLoc × World × Ctl
 
 /-! ### Outcome combinators (named, so that lemmas can speak about them) -/
 
 /-- the next statement runs when this one fell through -/
-def seqPy (f : PyFlags → World → PyR) (r : PyR) : PyR :=
+def seqPy (f : PyLoc → World → PyR) (r : PyR) : PyR :=
   match r with
   | (σ', w', .norm) => f σ' w'
   | r => r
 
 /-- `if flag:` -/
-def ifFlag (b : Option Bool) (thenR : PyR) (σ : PyFlags) (w : World) : PyR :=
+def ifFlag (b : Option Bool) (thenR : PyR) (σ : PyLoc) (w : World) : PyR :=
   match b with
   | some true => thenR
   | some false => (σ, w, .norm)
   | none => (σ, w, .sig (.exn "UnboundLocalError"))
 
 /-- at a `yield`: the consumer's answer -/
-def yieldPy (σ : PyFlags) (r : R) : PyR :=
+def yieldPy (σ : PyLoc) (r : R) : PyR :=
   match r with
   | (w', none) => (σ, w', .norm)
   | (w', some s) => (σ, w', .sig s)
@@ -116,7 +119,7 @@ def catchBreak (r : PyR) : PyR :=
   | r => r
 
 /-- what the body of a `for` loop over a generator tells the generator: go on, or the reason
-    for abandoning it; the frame's flags are put back where they travel -/
+    for abandoning it; the frame's locals are put back where they travel -/
 def bodyAnswer (r : PyR) : R :=
   match r with
   | (σ2, w2, .norm) => (w2.push σ2, none)
@@ -133,22 +136,38 @@ def loopEnd (r : R) : PyR :=
       else if s = .ret then (r.1.pop.1, r.1.pop.2, .ret)
       else (r.1.pop.1, r.1.pop.2, .sig s)
 
-@[simp] theorem seqPy_norm (f : PyFlags → World → PyR) (σ : PyFlags) (w : World) : seqPy f (σ, w, .norm) = f σ w := rfl
-@[simp] theorem seqPy_brk (f : PyFlags → World → PyR) (σ : PyFlags) (w : World) : seqPy f (σ, w, .brk) = (σ, w, .brk) := rfl
-@[simp] theorem seqPy_ret (f : PyFlags → World → PyR) (σ : PyFlags) (w : World) : seqPy f (σ, w, .ret) = (σ, w, .ret) := rfl
-@[simp] theorem seqPy_sig (f : PyFlags → World → PyR) (σ : PyFlags) (w : World) (s : Sig) : seqPy f (σ, w, .sig s) = (σ, w, .sig s) := rfl
-@[simp] theorem ifFlag_true (t : PyR) (σ : PyFlags) (w : World) : ifFlag (some true) t σ w = t := rfl
-@[simp] theorem ifFlag_false (t : PyR) (σ : PyFlags) (w : World) : ifFlag (some false) t σ w = (σ, w, .norm) := rfl
-@[simp] theorem yieldPy_none (σ : PyFlags) (w : World) : yieldPy σ (w, none) = (σ, w, .norm) := rfl
-@[simp] theorem yieldPy_some (σ : PyFlags) (w : World) (s : Sig) : yieldPy σ (w, some s) = (σ, w, .sig s) := rfl
-@[simp] theorem catchBreak_brk (σ : PyFlags) (w : World) : catchBreak (σ, w, .brk) = (σ, w, .norm) := rfl
-@[simp] theorem catchBreak_norm (σ : PyFlags) (w : World) : catchBreak (σ, w, .norm) = (σ, w, .norm) := rfl
-@[simp] theorem catchBreak_ret (σ : PyFlags) (w : World) : catchBreak (σ, w, .ret) = (σ, w, .ret) := rfl
-@[simp] theorem catchBreak_sig (σ : PyFlags) (w : World) (s : Sig) : catchBreak (σ, w, .sig s) = (σ, w, .sig s) := rfl
-@[simp] theorem bodyAnswer_norm (σ : PyFlags) (w : World) : bodyAnswer (σ, w, .norm) = (w.push σ, none) := rfl
-@[simp] theorem bodyAnswer_brk (σ : PyFlags) (w : World) : bodyAnswer (σ, w, .brk) = (w.push σ, some pyBreak) := rfl
-@[simp] theorem bodyAnswer_ret (σ : PyFlags) (w : World) : bodyAnswer (σ, w, .ret) = (w.push σ, some .ret) := rfl
-@[simp] theorem bodyAnswer_sig (σ : PyFlags) (w : World) (s : Sig) : bodyAnswer (σ, w, .sig s) = (w.push σ, some s) := rfl
+/-- `x = <expr>` -/
+def assignPy (x : String) (e : PExpr) (σ : PyLoc) (w : World) : PyR :=
+  match e with
+  | .tru => ((σ.1, σ.2.set x true), w, .norm)
+  | .fls => ((σ.1, σ.2.set x false), w, .norm)
+  | .name y => (((x, Env.get σ.1 y) :: σ.1, σ.2), w, .norm)
+  | .call f args =>
+      if f = "variable" ∧ args = [] then
+        (((x, .var w.fresh.1) :: σ.1, σ.2), w.fresh.2, .norm)
+      else (σ, w, .sig unsupported)
+  | _ => (σ, w, .sig unsupported)
+
+@[simp] theorem seqPy_norm (f : PyLoc → World → PyR) (σ : PyLoc) (w : World) : seqPy f (σ, w, .norm) = f σ w := rfl
+@[simp] theorem seqPy_brk (f : PyLoc → World → PyR) (σ : PyLoc) (w : World) : seqPy f (σ, w, .brk) = (σ, w, .brk) := rfl
+@[simp] theorem seqPy_ret (f : PyLoc → World → PyR) (σ : PyLoc) (w : World) : seqPy f (σ, w, .ret) = (σ, w, .ret) := rfl
+@[simp] theorem seqPy_sig (f : PyLoc → World → PyR) (σ : PyLoc) (w : World) (s : Sig) : seqPy f (σ, w, .sig s) = (σ, w, .sig s) := rfl
+@[simp] theorem ifFlag_true (t : PyR) (σ : PyLoc) (w : World) : ifFlag (some true) t σ w = t := rfl
+@[simp] theorem ifFlag_false (t : PyR) (σ : PyLoc) (w : World) : ifFlag (some false) t σ w = (σ, w, .norm) := rfl
+@[simp] theorem yieldPy_none (σ : PyLoc) (w : World) : yieldPy σ (w, none) = (σ, w, .norm) := rfl
+@[simp] theorem yieldPy_some (σ : PyLoc) (w : World) (s : Sig) : yieldPy σ (w, some s) = (σ, w, .sig s) := rfl
+@[simp] theorem catchBreak_brk (σ : PyLoc) (w : World) : catchBreak (σ, w, .brk) = (σ, w, .norm) := rfl
+@[simp] theorem catchBreak_norm (σ : PyLoc) (w : World) : catchBreak (σ, w, .norm) = (σ, w, .norm) := rfl
+@[simp] theorem catchBreak_ret (σ : PyLoc) (w : World) : catchBreak (σ, w, .ret) = (σ, w, .ret) := rfl
+@[simp] theorem catchBreak_sig (σ : PyLoc) (w : World) (s : Sig) : catchBreak (σ, w, .sig s) = (σ, w, .sig s) := rfl
+@[simp] theorem bodyAnswer_norm (σ : PyLoc) (w : World) : bodyAnswer (σ, w, .norm) = (w.push σ, none) := rfl
+@[simp] theorem bodyAnswer_brk (σ : PyLoc) (w : World) : bodyAnswer (σ, w, .brk) = (w.push σ, some pyBreak) := rfl
+@[simp] theorem bodyAnswer_ret (σ : PyLoc) (w : World) : bodyAnswer (σ, w, .ret) = (w.push σ, some .ret) := rfl
+@[simp] theorem bodyAnswer_sig (σ : PyLoc) (w : World) (s : Sig) : bodyAnswer (σ, w, .sig s) = (w.push σ, some s) := rfl
+@[simp] theorem assignPy_tru (x : String) (σ : PyLoc) (w : World) : assignPy x .tru σ w = ((σ.1, σ.2.set x true), w, .norm) := rfl
+@[simp] theorem assignPy_fls (x : String) (σ : PyLoc) (w : World) : assignPy x .fls σ w = ((σ.1, σ.2.set x false), w, .norm) := rfl
+@[simp] theorem assignPy_name (x y : String) (σ : PyLoc) (w : World) :
+    assignPy x (.name y) σ w = (((x, Env.get σ.1 y) :: σ.1, σ.2), w, .norm) := rfl
 
 /-- The generator a `for` loop iterates over: `query(name, [args])` or `unify(a, b)`. -/
 def loopGen (q : Q) (u : Term → Term → Gen) (env : Env) (f : String) (args : List PExpr) : Option Gen :=
@@ -166,17 +185,13 @@ def loopGen (q : Q) (u : Term → Term → Gen) (env : Env) (f : String) (args :
   else none
 
 mutual
-def pyStmt (q : Q) (u : Term → Term → Gen) (env : Env) : PStmt → K → PyFlags → World → PyR
-  | .assign x e, _, σ, w =>
-      match e with
-      | .tru => (σ.set x true, w, .norm)
-      | .fls => (σ.set x false, w, .norm)
-      | _ => (σ, w, .sig unsupported)
+def pyStmt (q : Q) (u : Term → Term → Gen) : PStmt → K → PyLoc → World → PyR
+  | .assign x e, _, σ, w => assignPy x e σ w
   | .ifS c body, k, σ, w =>
       match c with
       | .fls => (σ, w, .norm)
-      | .tru => pyStmts q u env body k σ w
-      | .name x => ifFlag (σ.get x) (pyStmts q u env body k σ w) σ w
+      | .tru => pyStmts q u body k σ w
+      | .name x => ifFlag (σ.2.get x) (pyStmts q u body k σ w) σ w
       | _ => (σ, w, .sig unsupported)
   | .yieldS _, k, σ, w => yieldPy σ (k w)
   | .returnS, _, σ, w => (σ, w, .ret)
@@ -185,17 +200,32 @@ def pyStmt (q : Q) (u : Term → Term → Gen) (env : Env) : PStmt → K → PyF
   | .defS _ _ _, _, σ, w => (σ, w, .sig unsupported)
   | .forIn _ it body, k, σ, w =>
       match it with
-      | .list [_] => catchBreak (pyStmts q u env body k σ w)
+      | .list [_] => catchBreak (pyStmts q u body k σ w)
       | .call f args =>
-          match loopGen q u env f args with
+          match loopGen q u σ.1 f args with
           | none => (σ, w, .sig unsupported)
           | some g =>
-              -- the frame's flags travel through the callee in `World.py`
-              loopEnd (g (fun w1 => bodyAnswer (pyStmts q u env body k w1.pop.1 w1.pop.2)) (w.push σ))
+              -- the frame's locals travel through the callee in `World.py`
+              loopEnd (g (fun w1 => bodyAnswer (pyStmts q u body k w1.pop.1 w1.pop.2)) (w.push σ))
       | _ => (σ, w, .sig unsupported)
-def pyStmts (q : Q) (u : Term → Term → Gen) (env : Env) : List PStmt → K → PyFlags → World → PyR
+def pyStmts (q : Q) (u : Term → Term → Gen) : List PStmt → K → PyLoc → World → PyR
   | [], _, σ, w => (σ, w, .norm)
-  | s :: ss, k, σ, w => seqPy (fun σ' w' => pyStmts q u env ss k σ' w') (pyStmt q u env s k σ w)
+  | s :: ss, k, σ, w => seqPy (fun σ' w' => pyStmts q u ss k σ' w') (pyStmt q u s k σ w)
 end
+
+/-- Leaving the generator function: it ends normally when its code falls off the end or executes
+    `return`; the consumer's reason for abandoning it (which travelled through the frame as `up _`),
+    or an exception raised inside it, is what the caller sees. -/
+def leavePy (r : PyR) : R :=
+  match r with
+  | (_, w', .sig (.up s)) => (w', some s)
+  | (_, w', .sig s) => (w', some s)
+  | (_, w', _) => (w', none)
+
+/-- Calling a generator function `def name(params): body` on `args` with consumer `k`. -/
+def pyCall (q : Q) (u : Term → Term → Gen) (d : PStmt) (args : List Term) : Gen := fun k w =>
+  match d with
+  | .defS _ params body => leavePy (pyStmts q u body (wrapK k) (params.zip args, []) w)
+  | _ => (w, some unsupported)
 
 end Yld
